@@ -3,6 +3,7 @@
    (after the code's own id normalisation `id_as_number`); `resps ms` are the responses of an array frame. *)
 From Coq Require Import List NArith ZArith Bool Lia Permutation.
 From JV Require Import Base.Bytes Base.Dec Model.Wire Model.ClientMgr Model.HttpBatch.
+From JV Require Proofs.ClientMgrInv.
 Import ListNotations.
 Local Open Scope N_scope.
 Local Arguments N.add : simpl never.
@@ -535,4 +536,48 @@ Proof.
     destruct (Hall r2 Hi2) as [k' [Ek' Hk']]. rewrite E2 in Ek'. injection Ek' as <-.
     destruct (Hd _ _ HA1 HA2) as [Heq|Hdis]; [contradiction|]. simpl in Hdis. lia.
   - apply array_reply_fatal in E as E'. destruct E' as [-> _]. eauto.
+Qed.
+
+(* ---------- ... which holds in every reachable state (Proofs/ClientMgrInv.v: `Inv`, `init_inv`, `run_inv`) ---------- *)
+Lemma Inv_ranges_disjoint s : ClientMgrInv.Inv s -> ranges_disjoint (batches (m s)).
+Proof.
+  intros HI r1 r2 H1 H2. destruct (ClientMgrInv.inv_core s HI) as [Hids _].
+  destruct (ClientMgrInv.ic_rng_disj _ _ _ _ _ Hids r1 r2) as [E|E].
+  - unfold ClientMgrInv.rngs_of. apply in_or_app. now left.
+  - unfold ClientMgrInv.rngs_of. apply in_or_app. now left.
+  - now left.
+  - right. exact E.
+Qed.
+
+Theorem reachable_ranges_disjoint : forall idstr qc bc gate es,
+  ranges_disjoint (batches (m (fst (run (init idstr qc bc gate) es)))).
+Proof. intros. apply Inv_ranges_disjoint, ClientMgrInv.run_inv, ClientMgrInv.init_inv. Qed.
+
+Theorem reply_goes_to_owner_reachable : forall idstr qc bc gate es ms s1 o r k loA hiA,
+  let s := fst (run (init idstr qc bc gate) es) in
+  handle_back s (FArray ms) = ROk s1 o ->
+  In r (resps ms) -> id_as_number (rs_id r) = Some k ->
+  In (loA, hiA) (map fst (batches (m s))) -> loA <= k < hiA ->
+  exists h,
+    alookup range_eqb (loA, hiA) (batches (m s)) = Some h /\
+    (forall r', In r' (resps ms) -> exists k', id_as_number (rs_id r') = Some k' /\ loA <= k' < hiA) /\
+    batches (m s1) = aremove range_eqb (loA, hiA) (batches (m s)) /\
+    let filled := filled_of loA (N.to_nat (hiA - loA)) (resps ms) in
+    o = complete s h (CBatch filled) /\
+    length filled = N.to_nat (hiA - loA) /\
+    forall j, (j < N.to_nat (hiA - loA))%nat -> nth j filled placeholder = entry_of loA (resps ms) j.
+Proof.
+  intros idstr qc bc gate es ms s1 o r k loA hiA s H. 
+  exact (reply_goes_to_owner s ms s1 o r k loA hiA H (reachable_ranges_disjoint idstr qc bc gate es)).
+Qed.
+
+Theorem mixed_reply_fails_reachable : forall idstr qc bc gate es ms r1 r2 k1 k2 lo1 hi1 lo2 hi2,
+  let s := fst (run (init idstr qc bc gate) es) in
+  In r1 (resps ms) -> id_as_number (rs_id r1) = Some k1 -> In (lo1, hi1) (map fst (batches (m s))) -> lo1 <= k1 < hi1 ->
+  In r2 (resps ms) -> id_as_number (rs_id r2) = Some k2 -> In (lo2, hi2) (map fst (batches (m s))) -> lo2 <= k2 < hi2 ->
+  (lo1, hi1) <> (lo2, hi2) ->
+  exists s1 f, handle_back s (FArray ms) = RFatal s1 [] f.
+Proof.
+  intros idstr qc bc gate es ms r1 r2 k1 k2 lo1 hi1 lo2 hi2 s.
+  exact (mixed_reply_fails s ms r1 r2 k1 k2 lo1 hi1 lo2 hi2 (reachable_ranges_disjoint idstr qc bc gate es)).
 Qed.
